@@ -1,33 +1,33 @@
-"""Registry of the checks: property id -> level, harness parts, deadlines, and
-the texts that go into MANIFEST.json (tools/gen_manifest.py)."""
+"""Registry of the checks. Every harness directory harness/<ID>/ holds
+  part.mk   - make fragment building its executables ($(call HARNESS,...))
+  check.py  - CHECK = {...}: level, parts, deadlines and the MANIFEST texts
+tools/gen_manifest.py turns this registry into MANIFEST.json."""
+import glob
+import os
 
+_V = os.path.dirname(os.path.abspath(__file__))
 ALL_IDS = ["C%02d" % i for i in range(1, 21)]
 
+# hook commits in /repo (guard CMI_VERIF), oldest first
 HOOK_COMMITS = []
 
 ENGINES = [
-    {"name": "E2", "path": "/verif/harness/C19", "serves_properties": ["C19"],
-     "kind_free_text": "explicit-state breadth-first search over real objects keyed by their restart image"},
+    {"name": "E1", "path": "/verif/engine/e1", "serves_properties": ["C01", "C07", "C08", "C04", "C10"],
+     "kind_free_text": "cooperative scheduler over hooked synchronisation points + deviation-bounded stateless DFS, "
+                       "one forked execution of the real code per schedule"},
+    {"name": "E2", "path": "/verif/harness", "serves_properties": ["C19", "C13", "C14", "C16"],
+     "kind_free_text": "explicit-state breadth-first search over real objects keyed by their restart image / canonical form"},
+    {"name": "E3", "path": "/verif/harness", "serves_properties": ["C02", "C03", "C05", "C06", "C11", "C15", "C17", "C18", "C20"],
+     "kind_free_text": "bounded-exhaustive enumeration of a finite input alphabet against independent reference oracles"},
 ]
 
-CHECKS = {
-    "C19": {
-        "level": "model_checking",
-        "engine": "E2",
-        "technique": "explicit-state BFS of the real TimeLine's complete reachable state set, invariant on every transition",
-        "level_text": "Every reachable state of the real TimeLine object (state = its restart image) is enumerated for "
-                      "settings with a positive minimum step (complete reachable set, at most a few thousand states) and to a "
-                      "fixed depth for settings without one; the step/overshoot/divisibility/end invariants are evaluated on every "
-                      "transition and a restored copy must be bisimilar in every state. The integer clock makes the state space "
-                      "finite, so exhaustive search is the natural level.",
-        "level_note": "Assumes advance() is not called after it reported the end; physical end time compared to round-off "
-                      "(the clock itself must be exactly at 2^63). Settings and request alphabet are listed in the harness.",
-        "quick_deadline": 60,
-        "thorough_deadline": 300,
-        "parts": [{"name": "timeline", "bin": "c19_timeline"}],
-        "assumptions": [],
-    },
-}
+CHECKS = {}
+for _f in sorted(glob.glob(os.path.join(_V, "harness", "*", "check.py"))):
+    _ns = {}
+    exec(compile(open(_f).read(), _f, "exec"), _ns)
+    _c = _ns["CHECK"]
+    if _c.get("enabled", True):
+        CHECKS[_c["id"]] = _c
 
 NOT_APPLICABLE = {
     pid: "check not built yet in this round (planned, see DESIGN.md section 3)"
